@@ -41,14 +41,20 @@ def render : Tree → String
 def errName : Err → String
   | .typeError => "TypeError" | .overflowError => "OverflowError" | .inferenceError => "InferenceError"
 
+/-- an option of the call: `null` = omitted -/
+def parseOpt (j : Json) : Except String (Option Bool) :=
+  match j with
+  | .null => pure none
+  | _ => do pure (some (← fromJson? (α := Bool) j))
+
+/-- `["b", [tp | null, cp | null], body]`: the call as written (an omitted option takes the generated default) -/
 partial def parseScoped (j : Json) : Except String Scoped :=
   match j with
   | .str "p" => pure .probe
   | .arr #[.str "b", .arr #[tp, cp], .arr body] => do
-      let tp ← fromJson? (α := Bool) tp
-      let cp ← fromJson? (α := Bool) cp
+      let c : OOCall := ⟨← parseOpt tp, ← parseOpt cp⟩
       let body ← body.toList.mapM parseScoped
-      pure (.block (tp, cp) body)
+      pure (.block (c.settings Generated.ResultType.ooDefaults) body)
   | _ => throw "bad scoped program"
 
 def settingsJ : Option (Bool × Bool) → Json
